@@ -70,7 +70,7 @@ class Run:
         self.violations.append((vio, case))
 
     def write_replay(self, vio, case):
-        d = os.path.join(VERIF, "replays", self.pid)
+        d = os.path.join(VERIF if os.path.realpath(REPO) == "/repo" else "/tmp/verif_alt", "replays", self.pid)
         os.makedirs(d, exist_ok=True)
         blob = json.dumps({"property": self.pid, "violation": vio, "case": case}, sort_keys=True, indent=1)
         name = hashlib.sha1(blob.encode()).hexdigest()[:12] + ".json"
@@ -118,8 +118,11 @@ class Run:
             "wall_s": round(time.time() - self.t0, 2),
             "violations": len(seen_keys),
         }
-        os.makedirs(os.path.join(VERIF, "evidence"), exist_ok=True)
-        with open(os.path.join(VERIF, "evidence", self.pid + ".json"), "w") as fh:
+        # runs against another tree (VERIF_REPO=<scratch worktree>, used for seeded changes) must not
+        # overwrite the evidence of /repo itself
+        evdir = os.path.join(VERIF, "evidence") if os.path.realpath(REPO) == "/repo" else "/tmp/verif_alt_evidence"
+        os.makedirs(evdir, exist_ok=True)
+        with open(os.path.join(evdir, self.pid + ".json"), "w") as fh:
             json.dump(ev, fh, indent=1, sort_keys=True)
         print("%s %s: %s; evidence/%s.json written (%.1fs)" % (
             self.pid, self.tier, "VIOLATIONS=%d" % len(seen_keys) if seen_keys else "ok", self.pid, ev["wall_s"]))
